@@ -17,6 +17,7 @@ pub const ALL: &[(&str, Scenario)] = &[
     ("pool", life::pool),
     ("teardown", life::teardown),
     ("pool-wrap", life::pool_wrap),
+    ("pool-cross", life::pool_cross),
     ("composite", composite::composite),
     ("build", build::build),
     ("inotify", inotify::inotify),
